@@ -1346,11 +1346,30 @@ impl SchedX {
         vio::set_page_write_delay(2000);
         vio::arm(vio::Fault { file: "ht".into(), tag: "write".into(), ordinal: 0, persistent: false, page_at: vio::PageFaultAt::Submission, abort: false });
         let r = commit_kv(&n, &batch);
-        drop(n);
         vio::mark("old-handle-dropped");
-        let me = std::thread::current().name().unwrap_or("?").to_string();
-        let second = crate::driver::open_nomt_retry::<B3>(&dir, &cf, 10);
-        vio::mark("second-handle-open");
+        // a second thread races for the directory while this one is inside the drop
+        let (dir2, cf2) = (dir.clone(), cf.clone());
+        let opener = std::thread::Builder::new()
+            .name("l3-opener".into())
+            .spawn(move || {
+                let t0 = Instant::now();
+                loop {
+                    match open_nomt::<B3>(&dir2, &cf2) {
+                        Ok(n2) => {
+                            vio::mark("second-handle-open");
+                            return Ok(n2);
+                        }
+                        Err(e) if format!("{e:#}").contains("Failed to lock directory") && t0.elapsed() < Duration::from_secs(10) => std::thread::yield_now(),
+                        Err(e) => return Err(e),
+                    }
+                }
+            })
+            .unwrap();
+        // give the opener time to be spinning on the lock
+        std::thread::sleep(Duration::from_millis(20));
+        drop(n);
+        let me = "l3-opener".to_string();
+        let second = opener.join().expect("opener thread");
         std::thread::sleep(Duration::from_millis(400));
         vio::set_page_write_delay(0);
         let (events, fired) = vio::disable();
